@@ -116,7 +116,9 @@ TOKENS = ["```", "~~~", "````x", "`", "``", "**", "*", "__", "~~", "[", "](", "]
           "{#", "#}", "|", "|-|", "---", "===", "- ", "1. ", "> ", "# ", "    ", "\\", "\\\n", "  \n", "\n", "\n\n", "&amp;", "&#0;", " ", "\U0001F600",
           "\x00AC0\x00", "\x00", "\r\n", "\r", "http://", "www.", "a", "中", "[x]: ", "[^x]: ", "> [!NOTE]\n",
           # appended later: link / image / definition heads and escaped-backslash tails
-          "[l](", "![i](", "[l](<", "\\\\", "\\\\)", "\\\\>", " \"t", "\\\"", "'t')"]
+          "[l](", "![i](", "[l](<", "\\\\", "\\\\)", "\\\\>", " \"t", "\\\"", "'t')",
+          # appended later: tabs after every kind of block marker
+          "\t", "[^x]:\t", "-\t", "1.\t", ">\t", "#\t", "[x]:\t", "|\t"]
 
 
 class Tokens(Space):
@@ -146,9 +148,14 @@ class Tokens(Space):
 
 
 UNITS = ["`", "*", "_", "[", "]", "(", ")", "<", ">", "!", "-", "#", "{%", "%}", "{{", "}}", "<!--", "-->", "|", "\\", "~", "\"", "'", ".", "a ", "[a]", "(b)",
-         "[a](", "![", "<a ", "`` ", "** ", "* a ", "- ", "> ", "1. ", "    ", "\n", "\n\n", "a\n", "> \n", "- \n", "|a", "&", "--", "---\n", "# \n", "<!-- -", "{% a", "[^a]", "[a]: b\n"]
+         "[a](", "![", "<a ", "`` ", "** ", "* a ", "- ", "> ", "1. ", "    ", "\n", "\n\n", "a\n", "> \n", "- \n", "|a", "&", "--", "---\n", "# \n", "<!-- -", "{% a", "[^a]", "[a]: b\n",
+         # appended later
+         "\\a", "\\]", "\\)", "a\\"]
 NESTING = {"- ", "> ", ">", "1. ", "* a ", "    "}
-PRE = ["", "x "]
+PRE = ["", "x ",
+       # appended later: an unclosed opener in front of the pumped part (single units, two option sets)
+       "see [", "[a](", "<", "`", "{% ", "<!-- ", "**", "[^", "![", "<a "]
+PRE_BASE = 2
 POST = ["", " y", "\n"]
 
 
@@ -168,10 +175,14 @@ class Pumped(Space):
         else:
             units += [(a, b) for a in range(0, len(UNITS), 3) for b in range(1, len(UNITS), 4) if a != b]
         for u in units:
-            for pre in range(len(PRE)):
+            for pre in range(PRE_BASE):
                 for post in range(len(POST)):
                     for o in range(len(OPTSETS)):
                         yield (u, pre, post, o)
+        for u in range(len(UNITS)):
+            for pre in range(PRE_BASE, len(PRE)):
+                for o in (0, 1) if not self.pairs else range(len(OPTSETS)):
+                    yield ((u,), pre, 0, o)
 
     def text(self, case, k):
         u, pre, post, o = case
